@@ -21,6 +21,7 @@ import ast
 
 from asl.cfg import cfg_of
 from asl.loader import AnalysisError, norm, own_nodes
+from .common import name_value
 
 LEVEL = {
     "decided": "C15: (R15.1) the decorator wrapper re-creates the manager inside every call, awaits the decorated "
@@ -60,6 +61,12 @@ def r15_1(ctx) -> None:
     if len(withs) != 1:
         return
     cm = withs[0].items[0].context_expr
+    if isinstance(cm, ast.Name):
+        # the manager may be bound to a local first - as long as that happens inside the wrapper
+        wcfg = cfg_of(w)
+        enters = [n for n in wcfg.nodes if n.kind == "enter" and not n.tag]
+        bound = name_value(ctx, w, wcfg, enters[0], cm.id) if enters else None
+        cm = bound if bound is not None else cm
     ok = isinstance(cm, ast.Call) and isinstance(cm.func, ast.Attribute) and cm.func.attr == "_recreate_cm" \
         and norm(cm.func.value) == "self" and not cm.args
     ctx.check(ok, "R15.1", w, cm, "the context entered is a manager re-created inside the call (self._recreate_cm())")
